@@ -268,7 +268,7 @@ func honestRound(s *script, ch *chain, cur, tip int64) {
 	s.add("show")
 }
 
-var attacks = []string{"forged-by-other-set", "wrong-first", "flawed-first", "bad-second", "both-unsigned", "wrong-height", "unasked", "silent", "stale-status",
+var attacks = []string{"malformed", "forged-by-other-set", "wrong-first", "flawed-first", "bad-second", "both-unsigned", "wrong-height", "unasked", "silent", "stale-status",
 	"bad-status", "malformed", "honest-first-liar-second-wrongheight-lc", "second-lc-other-target", "second-lc-wrong-psh"}
 
 // attack emits one adversarial episode at height cur by liar L; byz reports whether it used
@@ -385,8 +385,26 @@ func attack(r *rand.Rand, s *script, ch *chain, kind string, L int, cur, tip int
 			s.add("status p=%d base=0 height=-3", L)
 		}
 	case "malformed":
-		honestFirst()
-		liarAt(cur+1, ch.secondWith(r, cur+1, "empty"))
+		// an answer that does not pass BlockFromProto / Block.ValidateBasic
+		if r.Intn(4) == 0 {
+			honestFirst()
+			liarAt(cur+1, ch.secondWith(r, cur+1, "empty"))
+		} else {
+			sp := ch.canon(cur + int64(r.Intn(2)))
+			sp.mal = malKinds[r.Intn(len(malKinds))]
+			if sp.h == ch.ih && (sp.mal == "sigtoolong" || sp.mal == "absentaddr" || sp.mal == "lchash") {
+				sp.mal = "datahash"
+			}
+			count(attackHist, "malformed-"+sp.mal)
+			if sp.h == cur {
+				liarAt(cur, sp)
+				honestSecond()
+			} else {
+				honestFirst()
+				liarAt(cur+1, sp)
+			}
+		}
+		s.add("show")
 		finish()
 	case "honest-first-liar-second-wrongheight-lc":
 		honestFirst()
@@ -604,6 +622,11 @@ func genSoup(r *rand.Rand) core.Case {
 			sp.ttxv = 1
 		case 5:
 			sp.lch += int64(r.Intn(3) - 1)
+		case 6:
+			sp.mal = malKinds[r.Intn(len(malKinds))]
+			if sp.h == ch.ih && (sp.mal == "sigtoolong" || sp.mal == "absentaddr" || sp.mal == "lchash") {
+				sp.mal = "evhash"
+			}
 		}
 		return sp
 	}
@@ -657,8 +680,8 @@ func genSoup(r *rand.Rand) core.Case {
 func genBadOps(r *rand.Rand) core.Case {
 	io, _ := newConfig(r, "none")
 	bad := []string{"pick h=x p=1", "pick h=1", "block p=1 h=2", "status p=1 base=0", "frobnicate", "connect p=-1", "connect", "mkreq now",
-		"block p=1 h=2 id=zz/1 prev=0/0 flaw=0 lc=1:0:0/0:c0.0 nv=- d=0/000", "rstep", "timeout p=a", "process all", "init vals=", "init vals=0:x ih=1 upd=-",
-		"init vals=5:0 ih=0 upd=-", "init vals=0:0 ih=1 upd=-", "restart now", "block p=1 h=2 id=1/1 prev=0/0 flaw=0 lc=1:0:0/0:c0.0 nv=3:0, d=0/000"}
+		"block p=1 h=2 id=zz/1 prev=0/0 flaw=0 lc=1:0:0/0:c0.0 nv=- mal=0 d=0/000/-", "rstep", "timeout p=a", "process all", "init vals=", "init vals=0:x ih=1 upd=-",
+		"init vals=5:0 ih=0 upd=-", "init vals=0:0 ih=1 upd=-", "restart now", "block p=1 h=2 id=1/1 prev=0/0 flaw=0 lc=1:0:0/0:c0.0 nv=3:0, mal=0 d=0/000/-"}
 	s := &script{}
 	if r.Intn(2) == 0 {
 		s.add("connect p=1") // before init
@@ -772,6 +795,7 @@ func oracle(c core.Case, out []string) []core.Finding {
 	ih := int64(1)
 	offered := map[string]told{} // block id -> what the harness built
 	var pendingPair []string
+	malSender := ""
 	lastStore := ""
 	var tipSet []pv // the set that had to commit the last stored block
 	var tipSigs string
@@ -798,7 +822,12 @@ func oracle(c core.Case, out []string) []core.Finding {
 						Desc: fmt.Sprintf("empty store, genesis initial_height %d: the pool starts at %q — the first height it requests must be the chain's first block", ih, out[i])})
 				}
 			}
+		case "connect":
+			if m["p"] == malSender {
+				malSender = "" // it came back: a new connection
+			}
 		case "restart":
+			malSender = ""
 			if strings.HasPrefix(out[i], "ok") && out[i] != fmt.Sprintf("ok h=%d", ih+savedTotal) {
 				fs = append(fs, core.Finding{Fingerprint: "v0.NewBlockchainReactor.start-height-after-restart",
 					Desc: fmt.Sprintf("restart with %d blocks stored (first height %d): the pool starts at %q instead of %d", savedTotal, ih, out[i], ih+savedTotal)})
@@ -809,6 +838,21 @@ func oracle(c core.Case, out []string) []core.Finding {
 		case "block":
 			lc := strings.Split(m["lc"], ":")
 			h, _ := strconv.ParseInt(m["h"], 10, 64)
+			if d := strings.Split(m["d"], "/"); len(d) == 3 && len(lc) == 4 {
+				why := ""
+				if d[2] != "-" {
+					why = d[2]
+				} else if h > ih && lc[3] == "-" {
+					why = "no-signatures"
+				}
+				if why != "" && out[i] != "stopped" && out[i] != "not-connected" && out[i] != "bad-op" {
+					fs = append(fs, core.Finding{Fingerprint: "v0.Receive.malformed-block-sender-not-dropped",
+						Desc: fmt.Sprintf("peer %s answered with a block that does not pass BlockFromProto/ValidateBasic (%s) and was not stopped for error (result %q): the request stays assigned to it and is not retried elsewhere", m["p"], why, out[i])})
+				}
+				if why != "" && out[i] != "not-connected" && out[i] != "bad-op" {
+					malSender = m["p"]
+				}
+			}
 			if len(lc) == 4 {
 				offered[m["id"]] = told{h: h, prev: m["prev"], flaw: m["flaw"] != "0", lcH: lc[0], lcID: lc[2], lcSigs: lc[3], nv: m["nv"]}
 			}
@@ -830,6 +874,23 @@ func oracle(c core.Case, out []string) []core.Finding {
 				}
 			}
 		case "show":
+			if malSender != "" {
+				mm := kv("x " + out[i])
+				for _, e := range append(strings.Split(mm["peers"], ","), strings.Split(mm["conn"], ",")...) {
+					if strings.Split(e, ":")[0] == malSender {
+						fs = append(fs, core.Finding{Fingerprint: "v0.Receive.malformed-block-sender-still-connected",
+							Desc: fmt.Sprintf("peer %s sent a block that does not decode and is still in the pool / switch: %s", malSender, out[i])})
+						break
+					}
+				}
+				for _, e := range strings.Split(mm["reqs"], ",") {
+					if p := strings.Split(e, ":"); len(p) == 3 && p[1] == malSender && p[2] == "-" {
+						// still assigned and no redo possible: checked through the peer lists above
+						_ = p
+					}
+				}
+				malSender = ""
+			}
 			if len(pendingPair) > 0 {
 				mm := kv("x " + out[i])
 				in := func(list, id string) bool {
@@ -918,11 +979,12 @@ func oracle(c core.Case, out []string) []core.Finding {
 	return fs
 }
 
-func handoverFinding(outTok, where string, tipSet []pv, tipSigs string) core.Finding {
+func handoverFinding(outLine, where string, tipSet []pv, tipSigs string) core.Finding {
+	outTok := strings.Fields(outLine)[0]
 	kind := strings.TrimPrefix(outTok, "panic-")
 	fp := "v0.handover." + outTok
-	desc := where + " panics in reconstructLastCommit: " + outTok
-	if (kind == "sig" || kind == "addr") && tipSigs != "" && quorum(tipSet, tipSigs) {
+	desc := where + " panics in reconstructLastCommit: " + outLine
+	if (kind == "sig" || kind == "addr") && strings.Contains(outLine, "tipq=true") {
 		fp += ".unverified-rest-of-tip-seen-commit"
 		desc = fmt.Sprintf("the seen commit stored for the last synced block (%s) was only light-verified: an entry after the first +2/3 has an invalid signature or a foreign validator address, and CommitToVoteSet panics at %s (%s)", tipSigs, where, outTok)
 	}
